@@ -87,6 +87,22 @@ REGISTER_CORPUS = [
 ]
 
 
+# … and the same for variables: a global READ on a path on which this run has not assigned it yet
+# (the assignment sits in a branch that is not taken, in a later pass of a loop, after the read,
+# or in a routine that is called later) — every run sees "nothing" there, whatever an earlier run
+# of the same job has left behind
+VARIABLE_CORPUS = [
+    'if {1 > 2} begin assign seen 1 end print seen assign seen 1 print seen',
+    'assign n 0 repeat 2 begin if {n > 0} begin assign late 5 end print n assign n {n + 1} end print late',
+    'if {0} begin assign level 75 end printf "{level} {}" 1 assign level 20 printf "{level}"',
+    'define setter begin assign g 9 end if {0} begin assign g 1 end print g setter print g',
+    'if {0} begin assign b 75 end assign b2 b brightness 30 set "Lamp" assign b 50',
+    'if {0} begin assign who "Lamp" end hue 5 set "Strip" assign who "Candle"',
+    'define f with p begin assign loc p return loc end if {0} begin assign loc 3 end print [f 4] print loc',
+    'if {0} begin assign carry 0 end repeat with i from 1 to 2 begin print carry assign carry i end',
+]
+
+
 def compile_result(parser, text):
     try:
         ok = parser.parse(text)
@@ -208,7 +224,7 @@ def run_histories(chk, stats):
     from bardolph.controller.script_job import ScriptJob
     rng = chk.rng
     n = 500 if chk.thorough else 80
-    corpus = [(t, None) for t in RUN_CORPUS] + [(t, REGISTER_POP) for t in REGISTER_CORPUS]
+    corpus = [(t, None) for t in RUN_CORPUS] + [(t, REGISTER_POP) for t in REGISTER_CORPUS + VARIABLE_CORPUS]
     for i in range(n + len(corpus)):
         if corpus:
             text, pop = corpus.pop()
